@@ -63,7 +63,10 @@ pub fn judge(tree: &E, via_text: bool) -> Verdict {
         CompileOutcome::Panic(p) => return Verdict::Fail(format!("compile panicked on {t:?}: {p}")),
     };
     let base = FileRec::base(comp.now);
-    let files = vec![base.with_name("a"), base.with_name("b")];
+    let mut files = vec![base.with_name("a"), base.with_name("b")];
+    // files directed at the constants of the tree, so that every branch runs for some file
+    let n_fixed = files.len();
+    files.extend(crate::files::directed(&t, comp.now).into_iter().take(60));
     let run = match policy::run_policy(&comp, files.clone()) {
         Ok(r) => r,
         Err(e) => return Verdict::Fail(format!("{t:?}: {e}")),
@@ -81,6 +84,7 @@ pub fn judge(tree: &E, via_text: bool) -> Verdict {
             silent_somewhere = true;
         }
         match policy::spec_eval_matching(&t, f, comp.now, &obs) {
+            Err(_) if i >= n_fixed => continue,
             Err(e) => return Verdict::OracleBug(format!("spec evaluation undefined on a C09 tree: {e}")),
             Ok(Ok(())) => {}
             Ok(Err(diff)) => {
@@ -93,22 +97,8 @@ pub fn judge(tree: &E, via_text: bool) -> Verdict {
             }
         }
     }
-    // structural cross-check: the runtime's default print occurs iff there is no action
-    let forms = match sx::read_all(&comp.text) {
-        Ok(f) => f,
-        Err(e) => return Verdict::Fail(format!("program does not read: {e}")),
-    };
-    let an = scope::analyse(&forms);
-    let n_default = an.thunk.as_ref().map(|t| scope::generated_refs(t, "print-relative-path").len()).unwrap_or(0);
-    if has_action && n_default != 0 {
-        return Verdict::Fail(format!("{t:?} contains an action but the policy body also calls the default print\n{}", comp.text));
-    }
-    if !has_action {
-        let ok = an.thunk.as_ref().and_then(|t| t.list()).and_then(|l| l.get(2)).and_then(|b| b.list()).map(|b| b.len() == 3 && b[0].is_sym("and") && b[2].head() == Some("print-relative-path")).unwrap_or(false);
-        if !ok || n_default != 1 {
-            return Verdict::Fail(format!("{t:?} has no action: the body must be (and <E> (print-relative-path))\n{}", comp.text));
-        }
-    }
+    // (no structural demand on the body: the property is about what is printed; a body that reaches
+    // the same outputs in another way - an `if`, a generated printer for the implicit print - holds it)
     let nt = (has_action && silent_somewhere && t.n_operators() >= 1) || (!has_action && matches!(t, E::Or(..) | E::List(..)));
     Verdict::Pass { nt, class: match (has_action, class) {
         (true, "direct") => "action present (direct)",
@@ -217,7 +207,7 @@ pub fn run(ctx: &Ctx) -> Report {
     total.merge(rnd);
     Report {
         stats: total,
-        rule: format!("exhaustive: every tree with at most {max} nodes (leaves + operators) over the leaves {{true, false, -name a, -print, -quit, -fprint f}} and operators {{!, and, or, ','}}; random trees up to 14 nodes. Each compiled program is executed on the files {{a, b}}. Oracle: evaluation by find's rules with the implicit print defined as '( E ) -a -print' when the tree has no action anywhere and nothing added otherwise -> same truth, outputs, stop; structural cross-check: the body is (and <E> (print-relative-path)) iff no action. Non-trivial: an action is present but some file produces no output (dead or negated branch) with >=1 operator, or no action with OR/',' at the root. Distinct: by (tree, path)."),
+        rule: format!("exhaustive: every tree with at most {max} nodes (leaves + operators) over the leaves {{true, false, -name a, -print, -quit, -fprint f}} and operators {{!, and, or, ','}}; random trees up to 14 nodes. Each compiled program is executed on the files {{a, b}} and on files directed at the constants of the tree. Oracle: evaluation by find's rules with the implicit print defined as '( E ) -a -print' when the tree has no action anywhere and nothing added otherwise -> same truth, outputs, stop request. Non-trivial: an action is present but some file produces no output (dead or negated branch) with >=1 operator, or no action with OR/',' at the root. Distinct: by (tree, path)."),
         assumptions: crate::checks::c02::runtime_assumptions(),
         exhaustive: false,
     }
